@@ -53,6 +53,10 @@ pub open spec fn param_ok(ps: Seq<(Seq<char>, Seq<char>)>, key: Seq<char>, value
     match first_value(ps, key) { Some(v) => lower(v) == lower(value), None => false }
 }
 
+pub open spec fn pairs_view(v: Seq<(String, String)>) -> Seq<(Seq<char>, Seq<char>)> {
+    Seq::new(v.len(), |i: int| (v[i].0@, v[i].1@))
+}
+
 // ---- a privilege matches a URL ----
 pub open spec fn pmatch(p: Privilege, u: http::Uri) -> bool {
     &&& is_prefix(lower(p.path@), lower(uri_path(u)))
